@@ -100,6 +100,25 @@ def check(pid, tier, seed):
         lines += [step_line(g, ei) for ei in path]
         lines.append("E")
         meta[xid] = (path, pal, mult)
+    # "opening a missing file for reading fails with NotFound" whatever makes the name resolve to nothing: the behaviours that
+    # only try to open an absent path for reading, on a name longer than NAME_MAX and on a self-referential symbolic link
+    for init in g.init:
+        if g.states[init]["kind"] != "absent":
+            continue
+        for variant in ("long", "loop"):
+            cur, path = init, []
+            for k in range(3):
+                opens = [ei for ei in g.out.get(cur, ()) if g.edges[ei][2] == "Open" and g.states[g.edges[ei][1]]["res"]["k"] == "error"]
+                if not opens:
+                    break
+                ei = opens[(k + len(variant)) % len(opens)]
+                path.append(ei)
+                cur = g.edges[ei][1]
+            xid = "nf-%s-%d" % (variant, init % 1000)
+            lines.append("X %s pal=0 mult=1 kind=absent content=- link=0 absent=%s dir=%s" % (xid, variant, scratch))
+            lines += [step_line(g, ei) for ei in path]
+            lines.append("E")
+            meta[xid] = (path, 0, 1)
     res = common.run_harness(exe, "\n".join(lines) + "\n")
     seen = set()
     for xid, (path, pal, mult) in meta.items():
